@@ -9,9 +9,14 @@ Pairs == {"4326>3857", "3857>4326", "32633>4326", "4326>32633", "3857>32633", "6
 Cases == {[pair |-> p, dx |-> dx, dy |-> dy, zoom |-> z, pad |-> o.pad, align |-> o.align] :
             p \in Pairs, dx \in {-3, -1, 0, 1, 3}, dy \in {-3, -1, 0, 2}, z \in {"same", "coarser", "finer"},
             o \in {[pad |-> <<>>, align |-> <<>>], [pad |-> <<0>>, align |-> <<>>], [pad |-> <<2>>, align |-> <<2>>], [pad |-> <<>>, align |-> <<4>>]}}
+\* continental extents with strong curvature (polar azimuthal <-> geographic): here the sampled envelope alone is not enough, the default padding matters.
+\* Explicit padding 0 is not generated for this family (the statement does not promise completeness when the caller removes the margin on such transforms).
+BigCases == {[pair |-> p, dx |-> dx, dy |-> dy, zoom |-> z, pad |-> o.pad, align |-> o.align] :
+               p \in {"3575>4326big", "4326>3575big"}, dx \in 0..3, dy \in 0..5, z \in {"same", "coarser"},
+               o \in {[pad |-> <<>>, align |-> <<>>], [pad |-> <<1>>, align |-> <<>>], [pad |-> <<2>>, align |-> <<4>>]}}
 VARIABLE c
-Init == c \in {[k |-> p] : p \in Pairs}
-Next == "k" \in DOMAIN c /\ c' \in {x \in Cases : x.pair = c.k} /\ Emit(c')
+Init == c \in {[k |-> p] : p \in Pairs \cup {"big"}}
+Next == "k" \in DOMAIN c /\ c' \in (IF c.k = "big" THEN BigCases ELSE {x \in Cases : x.pair = c.k}) /\ Emit(c')
 Spec == Init /\ [][Next]_c
 
 =============================================================================
